@@ -24,7 +24,7 @@ SPEC = {
              'once each, no startable order left at a clock advance; a case is one stream; non-trivial = an order '
              'overtook an earlier one or waited for its target; also: capacity hooks that fail once (the caller asks again later), work-order costs that change with every order, long request histories'),
     'floors': {'quick': {'orders_completed': 5000, 'overtakes': 300, 'waited_for_target': 300,
-                         'duplicates_rejected': 300, 'clock_advances_checked': 5000, 'line_orders_completed': 300},
+                         'duplicates_rejected': 300, 'clock_advances_checked': 5000, 'line_orders_completed': 200},
                'thorough': {'orders_completed': 150000, 'overtakes': 9000, 'waited_for_target': 9000,
                             'duplicates_rejected': 9000, 'clock_advances_checked': 150000}},
     'assumptions': ['hooks that re-request use tags of their own, so the "is the finishing order still in progress '
